@@ -53,7 +53,7 @@ func boxesMeet(a, b *exact.Shape) bool {
 }
 
 func c02Run(c *mon.Ctx) {
-	o := pairOpts{corpusVariants: c.Pick(4, 8), halfLattice: c.Thorough(), random: c.Pick(2500000, 40000000)}
+	o := pairOpts{corpusVariants: c.Pick(4, 8), halfLattice: c.Thorough(), large: c.Pick(300000, 5000000), random: c.Pick(2500000, 40000000)}
 	item := 0
 	sink := func(a, b *exact.Shape, family string, corpus, closedA bool, n int) {
 		cfgs := baseIdx
@@ -71,6 +71,8 @@ func c02Run(c *mon.Ctx) {
 	corpusPairs(c, o, &item, sink)
 	c.Count("corpus_done")
 	randomPairs(c, o, &item, sink)
+	largePairs(c, o, &item, sink)
+	c.Count("large_done")
 }
 
 func c02Replay(kind string, raw json.RawMessage) (bool, string) {
